@@ -37,7 +37,7 @@ def inventory(facts):
         for bi, t in b.iter_calls():
             k = panic_kind(t.get("callee"))
             if k:
-                fn = re.sub(r"::\{closure#\d+\}", "", n)
+                fn = facts.owner_of(n)
                 inv[(fn, k)].append(t.get("line"))
     return inv
 
